@@ -560,3 +560,406 @@ impl RwsParse for String {
     open spec fn sv3(&self) -> Seq<char> { self@ }
     fn rws_parse<F: RwsFromStr>(&self) -> (r: Result<F, F::E>) { F::rws_from_str(self.as_str()) }
 }
+
+// cat/join of short literal sequences, unfolded (generated)
+pub proof fn lemma_cat_1(ss: Seq<Seq<char>>)
+    requires ss.len() == 1,
+    ensures cat(ss) == ss[0], join_spec(ss, Seq::<char>::empty()) == ss[0],
+{
+    reveal_with_fuel(cat, 2);
+    let d1 = ss.drop_last();
+    assert(d1.len() == 0);
+    assert(cat(ss) =~= ss[0]);
+    lemma_join_empty_sep(ss);
+}
+pub proof fn lemma_cat_2(ss: Seq<Seq<char>>)
+    requires ss.len() == 2,
+    ensures cat(ss) == ss[0] + ss[1], join_spec(ss, Seq::<char>::empty()) == ss[0] + ss[1],
+{
+    reveal_with_fuel(cat, 3);
+    let d2 = ss.drop_last();
+    assert(d2.len() == 1);
+    assert(forall|i: int| 0 <= i < 1 ==> d2[i] == ss[i]);
+    let d1 = d2.drop_last();
+    assert(d1.len() == 0);
+    assert(cat(ss) =~= ss[0] + ss[1]);
+    lemma_join_empty_sep(ss);
+}
+pub proof fn lemma_cat_3(ss: Seq<Seq<char>>)
+    requires ss.len() == 3,
+    ensures cat(ss) == ss[0] + ss[1] + ss[2], join_spec(ss, Seq::<char>::empty()) == ss[0] + ss[1] + ss[2],
+{
+    reveal_with_fuel(cat, 4);
+    let d3 = ss.drop_last();
+    assert(d3.len() == 2);
+    assert(forall|i: int| 0 <= i < 2 ==> d3[i] == ss[i]);
+    let d2 = d3.drop_last();
+    assert(d2.len() == 1);
+    assert(forall|i: int| 0 <= i < 1 ==> d2[i] == ss[i]);
+    let d1 = d2.drop_last();
+    assert(d1.len() == 0);
+    assert(cat(ss) =~= ss[0] + ss[1] + ss[2]);
+    lemma_join_empty_sep(ss);
+}
+pub proof fn lemma_cat_4(ss: Seq<Seq<char>>)
+    requires ss.len() == 4,
+    ensures cat(ss) == ss[0] + ss[1] + ss[2] + ss[3], join_spec(ss, Seq::<char>::empty()) == ss[0] + ss[1] + ss[2] + ss[3],
+{
+    reveal_with_fuel(cat, 5);
+    let d4 = ss.drop_last();
+    assert(d4.len() == 3);
+    assert(forall|i: int| 0 <= i < 3 ==> d4[i] == ss[i]);
+    let d3 = d4.drop_last();
+    assert(d3.len() == 2);
+    assert(forall|i: int| 0 <= i < 2 ==> d3[i] == ss[i]);
+    let d2 = d3.drop_last();
+    assert(d2.len() == 1);
+    assert(forall|i: int| 0 <= i < 1 ==> d2[i] == ss[i]);
+    let d1 = d2.drop_last();
+    assert(d1.len() == 0);
+    assert(cat(ss) =~= ss[0] + ss[1] + ss[2] + ss[3]);
+    lemma_join_empty_sep(ss);
+}
+pub proof fn lemma_cat_5(ss: Seq<Seq<char>>)
+    requires ss.len() == 5,
+    ensures cat(ss) == ss[0] + ss[1] + ss[2] + ss[3] + ss[4], join_spec(ss, Seq::<char>::empty()) == ss[0] + ss[1] + ss[2] + ss[3] + ss[4],
+{
+    reveal_with_fuel(cat, 6);
+    let d5 = ss.drop_last();
+    assert(d5.len() == 4);
+    assert(forall|i: int| 0 <= i < 4 ==> d5[i] == ss[i]);
+    let d4 = d5.drop_last();
+    assert(d4.len() == 3);
+    assert(forall|i: int| 0 <= i < 3 ==> d4[i] == ss[i]);
+    let d3 = d4.drop_last();
+    assert(d3.len() == 2);
+    assert(forall|i: int| 0 <= i < 2 ==> d3[i] == ss[i]);
+    let d2 = d3.drop_last();
+    assert(d2.len() == 1);
+    assert(forall|i: int| 0 <= i < 1 ==> d2[i] == ss[i]);
+    let d1 = d2.drop_last();
+    assert(d1.len() == 0);
+    assert(cat(ss) =~= ss[0] + ss[1] + ss[2] + ss[3] + ss[4]);
+    lemma_join_empty_sep(ss);
+}
+pub proof fn lemma_cat_6(ss: Seq<Seq<char>>)
+    requires ss.len() == 6,
+    ensures cat(ss) == ss[0] + ss[1] + ss[2] + ss[3] + ss[4] + ss[5], join_spec(ss, Seq::<char>::empty()) == ss[0] + ss[1] + ss[2] + ss[3] + ss[4] + ss[5],
+{
+    reveal_with_fuel(cat, 7);
+    let d6 = ss.drop_last();
+    assert(d6.len() == 5);
+    assert(forall|i: int| 0 <= i < 5 ==> d6[i] == ss[i]);
+    let d5 = d6.drop_last();
+    assert(d5.len() == 4);
+    assert(forall|i: int| 0 <= i < 4 ==> d5[i] == ss[i]);
+    let d4 = d5.drop_last();
+    assert(d4.len() == 3);
+    assert(forall|i: int| 0 <= i < 3 ==> d4[i] == ss[i]);
+    let d3 = d4.drop_last();
+    assert(d3.len() == 2);
+    assert(forall|i: int| 0 <= i < 2 ==> d3[i] == ss[i]);
+    let d2 = d3.drop_last();
+    assert(d2.len() == 1);
+    assert(forall|i: int| 0 <= i < 1 ==> d2[i] == ss[i]);
+    let d1 = d2.drop_last();
+    assert(d1.len() == 0);
+    assert(cat(ss) =~= ss[0] + ss[1] + ss[2] + ss[3] + ss[4] + ss[5]);
+    lemma_join_empty_sep(ss);
+}
+pub proof fn lemma_cat_7(ss: Seq<Seq<char>>)
+    requires ss.len() == 7,
+    ensures cat(ss) == ss[0] + ss[1] + ss[2] + ss[3] + ss[4] + ss[5] + ss[6], join_spec(ss, Seq::<char>::empty()) == ss[0] + ss[1] + ss[2] + ss[3] + ss[4] + ss[5] + ss[6],
+{
+    reveal_with_fuel(cat, 8);
+    let d7 = ss.drop_last();
+    assert(d7.len() == 6);
+    assert(forall|i: int| 0 <= i < 6 ==> d7[i] == ss[i]);
+    let d6 = d7.drop_last();
+    assert(d6.len() == 5);
+    assert(forall|i: int| 0 <= i < 5 ==> d6[i] == ss[i]);
+    let d5 = d6.drop_last();
+    assert(d5.len() == 4);
+    assert(forall|i: int| 0 <= i < 4 ==> d5[i] == ss[i]);
+    let d4 = d5.drop_last();
+    assert(d4.len() == 3);
+    assert(forall|i: int| 0 <= i < 3 ==> d4[i] == ss[i]);
+    let d3 = d4.drop_last();
+    assert(d3.len() == 2);
+    assert(forall|i: int| 0 <= i < 2 ==> d3[i] == ss[i]);
+    let d2 = d3.drop_last();
+    assert(d2.len() == 1);
+    assert(forall|i: int| 0 <= i < 1 ==> d2[i] == ss[i]);
+    let d1 = d2.drop_last();
+    assert(d1.len() == 0);
+    assert(cat(ss) =~= ss[0] + ss[1] + ss[2] + ss[3] + ss[4] + ss[5] + ss[6]);
+    lemma_join_empty_sep(ss);
+}
+pub proof fn lemma_cat_8(ss: Seq<Seq<char>>)
+    requires ss.len() == 8,
+    ensures cat(ss) == ss[0] + ss[1] + ss[2] + ss[3] + ss[4] + ss[5] + ss[6] + ss[7], join_spec(ss, Seq::<char>::empty()) == ss[0] + ss[1] + ss[2] + ss[3] + ss[4] + ss[5] + ss[6] + ss[7],
+{
+    reveal_with_fuel(cat, 9);
+    let d8 = ss.drop_last();
+    assert(d8.len() == 7);
+    assert(forall|i: int| 0 <= i < 7 ==> d8[i] == ss[i]);
+    let d7 = d8.drop_last();
+    assert(d7.len() == 6);
+    assert(forall|i: int| 0 <= i < 6 ==> d7[i] == ss[i]);
+    let d6 = d7.drop_last();
+    assert(d6.len() == 5);
+    assert(forall|i: int| 0 <= i < 5 ==> d6[i] == ss[i]);
+    let d5 = d6.drop_last();
+    assert(d5.len() == 4);
+    assert(forall|i: int| 0 <= i < 4 ==> d5[i] == ss[i]);
+    let d4 = d5.drop_last();
+    assert(d4.len() == 3);
+    assert(forall|i: int| 0 <= i < 3 ==> d4[i] == ss[i]);
+    let d3 = d4.drop_last();
+    assert(d3.len() == 2);
+    assert(forall|i: int| 0 <= i < 2 ==> d3[i] == ss[i]);
+    let d2 = d3.drop_last();
+    assert(d2.len() == 1);
+    assert(forall|i: int| 0 <= i < 1 ==> d2[i] == ss[i]);
+    let d1 = d2.drop_last();
+    assert(d1.len() == 0);
+    assert(cat(ss) =~= ss[0] + ss[1] + ss[2] + ss[3] + ss[4] + ss[5] + ss[6] + ss[7]);
+    lemma_join_empty_sep(ss);
+}
+pub proof fn lemma_cat_9(ss: Seq<Seq<char>>)
+    requires ss.len() == 9,
+    ensures cat(ss) == ss[0] + ss[1] + ss[2] + ss[3] + ss[4] + ss[5] + ss[6] + ss[7] + ss[8], join_spec(ss, Seq::<char>::empty()) == ss[0] + ss[1] + ss[2] + ss[3] + ss[4] + ss[5] + ss[6] + ss[7] + ss[8],
+{
+    reveal_with_fuel(cat, 10);
+    let d9 = ss.drop_last();
+    assert(d9.len() == 8);
+    assert(forall|i: int| 0 <= i < 8 ==> d9[i] == ss[i]);
+    let d8 = d9.drop_last();
+    assert(d8.len() == 7);
+    assert(forall|i: int| 0 <= i < 7 ==> d8[i] == ss[i]);
+    let d7 = d8.drop_last();
+    assert(d7.len() == 6);
+    assert(forall|i: int| 0 <= i < 6 ==> d7[i] == ss[i]);
+    let d6 = d7.drop_last();
+    assert(d6.len() == 5);
+    assert(forall|i: int| 0 <= i < 5 ==> d6[i] == ss[i]);
+    let d5 = d6.drop_last();
+    assert(d5.len() == 4);
+    assert(forall|i: int| 0 <= i < 4 ==> d5[i] == ss[i]);
+    let d4 = d5.drop_last();
+    assert(d4.len() == 3);
+    assert(forall|i: int| 0 <= i < 3 ==> d4[i] == ss[i]);
+    let d3 = d4.drop_last();
+    assert(d3.len() == 2);
+    assert(forall|i: int| 0 <= i < 2 ==> d3[i] == ss[i]);
+    let d2 = d3.drop_last();
+    assert(d2.len() == 1);
+    assert(forall|i: int| 0 <= i < 1 ==> d2[i] == ss[i]);
+    let d1 = d2.drop_last();
+    assert(d1.len() == 0);
+    assert(cat(ss) =~= ss[0] + ss[1] + ss[2] + ss[3] + ss[4] + ss[5] + ss[6] + ss[7] + ss[8]);
+    lemma_join_empty_sep(ss);
+}
+pub proof fn lemma_cat_10(ss: Seq<Seq<char>>)
+    requires ss.len() == 10,
+    ensures cat(ss) == ss[0] + ss[1] + ss[2] + ss[3] + ss[4] + ss[5] + ss[6] + ss[7] + ss[8] + ss[9], join_spec(ss, Seq::<char>::empty()) == ss[0] + ss[1] + ss[2] + ss[3] + ss[4] + ss[5] + ss[6] + ss[7] + ss[8] + ss[9],
+{
+    reveal_with_fuel(cat, 11);
+    let d10 = ss.drop_last();
+    assert(d10.len() == 9);
+    assert(forall|i: int| 0 <= i < 9 ==> d10[i] == ss[i]);
+    let d9 = d10.drop_last();
+    assert(d9.len() == 8);
+    assert(forall|i: int| 0 <= i < 8 ==> d9[i] == ss[i]);
+    let d8 = d9.drop_last();
+    assert(d8.len() == 7);
+    assert(forall|i: int| 0 <= i < 7 ==> d8[i] == ss[i]);
+    let d7 = d8.drop_last();
+    assert(d7.len() == 6);
+    assert(forall|i: int| 0 <= i < 6 ==> d7[i] == ss[i]);
+    let d6 = d7.drop_last();
+    assert(d6.len() == 5);
+    assert(forall|i: int| 0 <= i < 5 ==> d6[i] == ss[i]);
+    let d5 = d6.drop_last();
+    assert(d5.len() == 4);
+    assert(forall|i: int| 0 <= i < 4 ==> d5[i] == ss[i]);
+    let d4 = d5.drop_last();
+    assert(d4.len() == 3);
+    assert(forall|i: int| 0 <= i < 3 ==> d4[i] == ss[i]);
+    let d3 = d4.drop_last();
+    assert(d3.len() == 2);
+    assert(forall|i: int| 0 <= i < 2 ==> d3[i] == ss[i]);
+    let d2 = d3.drop_last();
+    assert(d2.len() == 1);
+    assert(forall|i: int| 0 <= i < 1 ==> d2[i] == ss[i]);
+    let d1 = d2.drop_last();
+    assert(d1.len() == 0);
+    assert(cat(ss) =~= ss[0] + ss[1] + ss[2] + ss[3] + ss[4] + ss[5] + ss[6] + ss[7] + ss[8] + ss[9]);
+    lemma_join_empty_sep(ss);
+}
+
+pub proof fn lemma_join_3(ss: Seq<Seq<char>>, sep: Seq<char>)
+    requires ss.len() == 3,
+    ensures join_spec(ss, sep) == ss[0] + sep + ss[1] + sep + ss[2],
+{
+    reveal_with_fuel(join_spec, 4);
+    let d2 = ss.drop_last();
+    let d1 = d2.drop_last();
+    assert(d2.len() == 2 && d1.len() == 1);
+    assert(d2[0] == ss[0] && d2[1] == ss[1] && d1[0] == ss[0]);
+    assert(join_spec(ss, sep) =~= ss[0] + sep + ss[1] + sep + ss[2]);
+}
+
+// broadcast forms: join of a literal array with the empty separator, unfolded (generated)
+pub broadcast proof fn lemma_bjoin_1(ss: Seq<Seq<char>>, sep: Seq<char>)
+    requires ss.len() == 1, sep.len() == 0,
+    ensures #[trigger] join_spec(ss, sep) == ss[0],
+{
+    assert(sep =~= Seq::<char>::empty());
+    lemma_cat_1(ss);
+}
+pub broadcast proof fn lemma_bjoin_2(ss: Seq<Seq<char>>, sep: Seq<char>)
+    requires ss.len() == 2, sep.len() == 0,
+    ensures #[trigger] join_spec(ss, sep) == ss[0] + ss[1],
+{
+    assert(sep =~= Seq::<char>::empty());
+    lemma_cat_2(ss);
+}
+pub broadcast proof fn lemma_bjoin_3(ss: Seq<Seq<char>>, sep: Seq<char>)
+    requires ss.len() == 3, sep.len() == 0,
+    ensures #[trigger] join_spec(ss, sep) == ss[0] + ss[1] + ss[2],
+{
+    assert(sep =~= Seq::<char>::empty());
+    lemma_cat_3(ss);
+}
+pub broadcast proof fn lemma_bjoin_4(ss: Seq<Seq<char>>, sep: Seq<char>)
+    requires ss.len() == 4, sep.len() == 0,
+    ensures #[trigger] join_spec(ss, sep) == ss[0] + ss[1] + ss[2] + ss[3],
+{
+    assert(sep =~= Seq::<char>::empty());
+    lemma_cat_4(ss);
+}
+pub broadcast proof fn lemma_bjoin_5(ss: Seq<Seq<char>>, sep: Seq<char>)
+    requires ss.len() == 5, sep.len() == 0,
+    ensures #[trigger] join_spec(ss, sep) == ss[0] + ss[1] + ss[2] + ss[3] + ss[4],
+{
+    assert(sep =~= Seq::<char>::empty());
+    lemma_cat_5(ss);
+}
+pub broadcast proof fn lemma_bjoin_6(ss: Seq<Seq<char>>, sep: Seq<char>)
+    requires ss.len() == 6, sep.len() == 0,
+    ensures #[trigger] join_spec(ss, sep) == ss[0] + ss[1] + ss[2] + ss[3] + ss[4] + ss[5],
+{
+    assert(sep =~= Seq::<char>::empty());
+    lemma_cat_6(ss);
+}
+pub broadcast proof fn lemma_bjoin_7(ss: Seq<Seq<char>>, sep: Seq<char>)
+    requires ss.len() == 7, sep.len() == 0,
+    ensures #[trigger] join_spec(ss, sep) == ss[0] + ss[1] + ss[2] + ss[3] + ss[4] + ss[5] + ss[6],
+{
+    assert(sep =~= Seq::<char>::empty());
+    lemma_cat_7(ss);
+}
+pub broadcast proof fn lemma_bjoin_8(ss: Seq<Seq<char>>, sep: Seq<char>)
+    requires ss.len() == 8, sep.len() == 0,
+    ensures #[trigger] join_spec(ss, sep) == ss[0] + ss[1] + ss[2] + ss[3] + ss[4] + ss[5] + ss[6] + ss[7],
+{
+    assert(sep =~= Seq::<char>::empty());
+    lemma_cat_8(ss);
+}
+pub broadcast proof fn lemma_bjoin_9(ss: Seq<Seq<char>>, sep: Seq<char>)
+    requires ss.len() == 9, sep.len() == 0,
+    ensures #[trigger] join_spec(ss, sep) == ss[0] + ss[1] + ss[2] + ss[3] + ss[4] + ss[5] + ss[6] + ss[7] + ss[8],
+{
+    assert(sep =~= Seq::<char>::empty());
+    lemma_cat_9(ss);
+}
+pub broadcast proof fn lemma_bjoin_10(ss: Seq<Seq<char>>, sep: Seq<char>)
+    requires ss.len() == 10, sep.len() == 0,
+    ensures #[trigger] join_spec(ss, sep) == ss[0] + ss[1] + ss[2] + ss[3] + ss[4] + ss[5] + ss[6] + ss[7] + ss[8] + ss[9],
+{
+    assert(sep =~= Seq::<char>::empty());
+    lemma_cat_10(ss);
+}
+pub broadcast group group_join_lemmas {
+    lemma_bjoin_1,
+    lemma_bjoin_2,
+    lemma_bjoin_3,
+    lemma_bjoin_4,
+    lemma_bjoin_5,
+    lemma_bjoin_6,
+    lemma_bjoin_7,
+    lemma_bjoin_8,
+    lemma_bjoin_9,
+    lemma_bjoin_10,
+}
+
+// broadcast forms for cat (R-FMT results) and for 3-element joins with a separator
+pub broadcast proof fn lemma_bcat_1(ss: Seq<Seq<char>>)
+    requires ss.len() == 1,
+    ensures #[trigger] cat(ss) == ss[0],
+{
+    lemma_cat_1(ss);
+}
+pub broadcast proof fn lemma_bcat_2(ss: Seq<Seq<char>>)
+    requires ss.len() == 2,
+    ensures #[trigger] cat(ss) == ss[0] + ss[1],
+{
+    lemma_cat_2(ss);
+}
+pub broadcast proof fn lemma_bcat_3(ss: Seq<Seq<char>>)
+    requires ss.len() == 3,
+    ensures #[trigger] cat(ss) == ss[0] + ss[1] + ss[2],
+{
+    lemma_cat_3(ss);
+}
+pub broadcast proof fn lemma_bcat_4(ss: Seq<Seq<char>>)
+    requires ss.len() == 4,
+    ensures #[trigger] cat(ss) == ss[0] + ss[1] + ss[2] + ss[3],
+{
+    lemma_cat_4(ss);
+}
+pub broadcast proof fn lemma_bcat_5(ss: Seq<Seq<char>>)
+    requires ss.len() == 5,
+    ensures #[trigger] cat(ss) == ss[0] + ss[1] + ss[2] + ss[3] + ss[4],
+{
+    lemma_cat_5(ss);
+}
+pub broadcast proof fn lemma_bcat_6(ss: Seq<Seq<char>>)
+    requires ss.len() == 6,
+    ensures #[trigger] cat(ss) == ss[0] + ss[1] + ss[2] + ss[3] + ss[4] + ss[5],
+{
+    lemma_cat_6(ss);
+}
+pub broadcast proof fn lemma_bjoin3_sep(ss: Seq<Seq<char>>, sep: Seq<char>)
+    requires ss.len() == 3,
+    ensures #[trigger] join_spec(ss, sep) == ss[0] + sep + ss[1] + sep + ss[2],
+{
+    lemma_join_3(ss, sep);
+}
+pub broadcast group group_cat_lemmas {
+    lemma_bcat_1,
+    lemma_bcat_2,
+    lemma_bcat_3,
+    lemma_bcat_4,
+    lemma_bcat_5,
+    lemma_bcat_6,
+    lemma_bjoin3_sep,
+}
+
+// R-STREQ: comparison of a string value with a &'static str constant
+pub trait RwsStrEq {
+    spec fn sv6(&self) -> Seq<char>;
+    fn rws_eq_str(&self, o: &str) -> (r: bool)
+        ensures r == (self.sv6() == o@);
+}
+impl RwsStrEq for String {
+    open spec fn sv6(&self) -> Seq<char> { self@ }
+    #[verifier::external_body]
+    fn rws_eq_str(&self, o: &str) -> bool { self == o }
+}
+impl RwsStrEq for str {
+    open spec fn sv6(&self) -> Seq<char> { self@ }
+    #[verifier::external_body]
+    fn rws_eq_str(&self, o: &str) -> bool { self == o }
+}
